@@ -397,7 +397,7 @@ def check_property(pid, tier, seed):
         eps, crashes = vlib.run_episodes(binary, gated, scratch, gomaxprocs=1, tag='g')
         # ---- systematic windows: for every label a base execution visited, one more execution of the same program in which
         # any goroutine arriving at that label is held there until nothing else can run
-        skip = {'call', 'ret', 'c.start', 'quiescent', 'notify.sent', 'notify.dropped', 'free.push', 'free.stop', 'sched'}
+        skip = {'call', 'ret', 'c.start', 'quiescent', 'notify.sent', 'notify.dropped', 'sched'}
         holds, windows = [], []
         for e in eps:
             if e['prog']['family'].startswith('m1:') or e['end']['result'] != 'ok':
